@@ -139,7 +139,8 @@ RECORDED = {"KParam", "KConst", "KLet", "KVar", "KFunction", "KClass", "KImport"
 # ----------------------------------------------------------------------------------------------
 # References: (family, rule, global name, statement template with @ = the reference identifier, media, MiniScope term of the reference)
 # ----------------------------------------------------------------------------------------------
-FAM_CTXT, FAM_VAR, FAM_PP = "unresolved-ctxt-rules", "scope-var-rules", "prefer-primordials"
+FAM_CTXT, FAM_VAR, FAM_PP, FAM_GA = "unresolved-ctxt-rules", "scope-var-rules", "prefer-primordials", "no-global-assign"
+NONCONFIGURABLE_GLOBALS = {"undefined", "NaN", "Infinity"}
 
 
 def ref_member(x): return Member(Ref(x), "p9")
@@ -164,8 +165,8 @@ REFS = [
     (FAM_VAR, "no-deprecated-deno-api", "Deno", "let t9: @.File;", "ts"),
     (FAM_VAR, "no-regex-spaces", "RegExp", "v9 = new @('a  b');", None),
     (FAM_VAR, "no-regex-spaces", "RegExp", "@('a  b');", None),
-    (FAM_VAR, "no-control-regex", "RegExp", "v9 = new @('\\x1f');", None),
-    (FAM_VAR, "no-control-regex", "RegExp", "@('\\x1f');", None),
+    (FAM_VAR, "no-control-regex", "RegExp", "v9 = new @('\\\\x1f');", None),
+    (FAM_VAR, "no-control-regex", "RegExp", "@('\\\\x1f');", None),
     (FAM_VAR, "no-sync-fn-in-async-fn", "Deno", "(async () => { @.readFileSync('a'); })();", None),
     (FAM_VAR, "no-sync-fn-in-async-fn", "Deno", "(async function () { await 1; @.statSync('a'); })();", None),
     # rules that compare the reference's syntax context with the unresolved context
@@ -176,22 +177,27 @@ REFS = [
     (FAM_CTXT, "no-node-globals", "global", "v9 = @;", None),
     (FAM_CTXT, "no-node-globals", "setImmediate", "@(f9);", None),
     (FAM_CTXT, "no-node-globals", "clearImmediate", "v9 = [@];", None),
-    (FAM_CTXT, "no-global-assign", "Array", "@ = 1;", None),
-    (FAM_CTXT, "no-global-assign", "String", "@++;", None),
-    (FAM_CTXT, "no-global-assign", "Object", "({ @ } = o9);", None),
-    (FAM_CTXT, "no-global-assign", "Map", "[@] = o9;", None),
+    (FAM_GA, "no-global-assign", "Array", "@ = 1;", None),
+    (FAM_GA, "no-global-assign", "String", "@++;", None),
+    (FAM_GA, "no-global-assign", "Object", "({ @ } = o9);", None),
+    (FAM_GA, "no-global-assign", "Map", "[@] = o9;", None),
+    # `undefined`, `NaN`, `Infinity`: non-configurable properties of the global object.  A top-level declaration of a SCRIPT does not
+    # shadow them (swc's resolver leaves such references unresolved, correctly); these programs are therefore made modules (`export {}`).
+    (FAM_GA, "no-global-assign", "undefined", "@ = 1;", None),
+    (FAM_GA, "no-global-assign", "NaN", "@ += 1;", None),
+    (FAM_GA, "no-global-assign", "Infinity", "[@] = o9;", None),
     # prefer-primordials (its own family: several handlers)
     (FAM_PP, "prefer-primordials", "parseInt", "@('1');", None),            # ident handler, GLOBAL_TARGETS (scope consulted)
     (FAM_PP, "prefer-primordials", "Array", "v9 = @;", None),
     (FAM_PP, "prefer-primordials", "Array", "@.from(o9);", None),           # member_expr handler, GLOBAL_TARGETS
     (FAM_PP, "prefer-primordials", "Symbol", "v9 = @.iterator;", None),
     (FAM_PP, "prefer-primordials", "Map", "v9 = new @();", None),           # ident handler, UNSAFE_CONSTRUCTOR_TARGETS
-    (FAM_PP, "prefer-primordials", "Promise", "v9 = new @(f9);", None),
+    (FAM_PP, "prefer-primordials", "Set", "v9 = new @(o9);", None),
 ]
 
 # prefer-primordials reports several things per reference template; the sub-family names the handler branch
 PP_BRANCH = {"@('1');": "ident-global", "v9 = @;": "ident-global", "@.from(o9);": "member-global",
-             "v9 = @.iterator;": "member-global", "v9 = new @();": "unsafe-constructor", "v9 = new @(f9);": "unsafe-constructor"}
+             "v9 = @.iterator;": "member-global", "v9 = new @();": "unsafe-constructor", "v9 = new @(o9);": "unsafe-constructor"}
 
 # ----------------------------------------------------------------------------------------------
 # Binding forms.  text(N, B) -> program text with the body B inside the binding's scope (or beside it);
@@ -406,6 +412,8 @@ def build(ref, form, outer, inner, k=0):
     for w in reversed(outer):
         src = WRAP_BY_NAME[w][1](src)
         term = WRAP_BY_NAME[w][2](term)
+    if name in NONCONFIGURABLE_GLOBALS:
+        src += " export {};"
     off = src.index(marker)
     src = src.replace(marker, "")
     return {"src": src, "media": media_for(rmedia, form, list(outer) + list(inner), k), "ref_off": off, "term": term, "name": name,
@@ -504,31 +512,18 @@ def py_probe(term, name):
 
 
 # ----------------------------------------------------------------------------------------------
-# Proposed known findings of the CURRENT tree (see work/c14-proposed-known.json); the main engineer decides.
+# Judging
 # ----------------------------------------------------------------------------------------------
-PROPOSED_KNOWN = {}
-
-
-def load_proposed():
-    p = os.path.join(lib.WORK, "c14-proposed-known.json")
-    if os.path.exists(p):
-        PROPOSED_KNOWN.update(json.load(open(p)))
-
-
-def classify(c, diags):
-    """-> None | (class suffix, text).  diags: the rule's diagnostics."""
-    off = c["ref_off"]
-    at_ref = [d for d in diags if d["start"] is not None and d["start"] <= off < d["end"]]
-    n = c["name"]
-    # other diagnostics count only when they point at an occurrence of the global name (wrappers make prefer-primordials talk)
-    elsewhere = [d for d in diags if d not in at_ref and d["start"] is not None and c["src"].encode()[d["start"]:d["start"] + len(n)] == n.encode()]
-    if c["kind"] == "enclosing" and at_ref:
-        return "shadowed-but-reported"
-    if c["kind"] == "non-enclosing" and not at_ref:
-        return "unbound-but-silent"
-    if elsewhere and c["kind"] != "info":
-        return "non-reference-reported"
-    return None
+# How each rule family decides (the MODEL of the implementation; the property's oracle is `kind`):
+#   probe 1 = unresolved, 2 = bound & recorded by deno_ast, 3 = bound by a form deno_ast's Scope does not record
+MECHANISM = {
+    FAM_VAR: lambda pr: pr in (1, 3),                       # scope().var(id).is_none() / is_global(id)
+    FAM_CTXT: lambda pr: pr == 1,                           # id.ctxt() == unresolved_ctxt()
+    FAM_GA: lambda pr: pr == 1,                             # both tests
+    FAM_PP + ".ident-global": lambda pr: pr in (1, 3),      # GLOBAL_TARGETS && !is_shadowed
+    FAM_PP + ".member-global": lambda pr: True,             # no scope test at all
+    FAM_PP + ".unsafe-constructor": lambda pr: True,
+}
 
 
 def family_of(c):
@@ -537,53 +532,238 @@ def family_of(c):
     return c["family"]
 
 
+def judge(c, diags):
+    """-> (verdict | None, reported_at_reference: bool, diagnostics elsewhere on an occurrence of the name)"""
+    off, n = c["ref_off"], c["name"]
+    b = c["src"].encode()
+    at_ref = [d for d in diags if d["start"] is not None and d["start"] <= off < d["end"]]
+    # other diagnostics count only when they point at an occurrence of the global name (wrappers make prefer-primordials talk)
+    elsewhere = [d for d in diags if d not in at_ref and d["start"] is not None and b[d["start"]:d["start"] + len(n)] == n.encode()]
+    v = None
+    if c["kind"] == "enclosing" and at_ref:
+        v = "shadowed-but-reported"
+    elif c["kind"] == "non-enclosing" and not at_ref:
+        v = "unbound-but-silent"
+    return v, bool(at_ref), elsewhere
+
+
 def run_cases(cases):
     impl = lib.run_vh("lint", [{"src": c["src"], "media": c["media"], "rules": [c["rule"]]} for c in cases])
     ids = lib.run_vh("idents", [{"src": c["src"], "media": c["media"]} for c in cases])
     return impl, ids
 
 
+def analyse(cases, impl, ids, model):
+    """-> dict with property failures grouped into classes, model/swc mismatches, mechanism mismatches, statistics."""
+    import collections
+    fails = collections.defaultdict(list)        # (family, group, verdict) -> [case index]
+    nonref = collections.defaultdict(list)       # (family-top, form) -> [case index]
+    templates_in = collections.defaultdict(set)  # (family, group) -> all (rule, tpl) exercised
+    swc_mism, mech_mism, parse_bad = [], [], []
+    info = collections.Counter()
+    dist = collections.Counter()
+    nontrivial = set()
+    for k, (c, r, i, pm) in enumerate(zip(cases, impl, ids, model)):
+        if r is None or "ok" not in r:
+            parse_bad.append({"src": c["src"], "media": c["media"], "result": r})
+            continue
+        fam = family_of(c)
+        templates_in[(fam, c["group"])].add((c["rule"], c["tpl"]))
+        diags = [d for d in r["ok"] if d["code"] == c["rule"]]
+        v, at_ref, elsewhere = judge(c, diags)
+        dist["%s/%s/depth%d" % (c["kind"], c["family"], len(c["inner"]))] += 1
+        type_pos = c["tpl"].startswith("let t9:")
+        # (1) the model's assumption about swc: resolver verdict + what deno_ast's Scope sees
+        me = [x for x in (i or {}).get("idents", []) if x[0] == c["ref_off"]]
+        if not me:
+            swc_mism.append({"src": c["src"], "media": c["media"], "why": "reference identifier not found by `idents`", "idents": i})
+        elif not (c["kind"] == "info" and type_pos):
+            sw = 1 if me[0][3] == i["unresolved"] else (2 if me[0][5] else 3)
+            if sw != pm:
+                swc_mism.append({"src": c["src"], "media": c["media"], "form": c["form"], "model_probe": pm, "swc_probe": sw})
+        if c["kind"] == "info":
+            info["%s: %s reference, %s -> %s" % (c["form"], "type" if type_pos else "value", c["family"], "reported" if at_ref else "silent")] += 1
+            continue
+        # (2) the rule behaves as its modelled mechanism says
+        if MECHANISM[fam](pm) != at_ref:
+            mech_mism.append({"src": c["src"], "media": c["media"], "rule": c["rule"], "family": fam, "model_probe": pm, "reported": at_ref})
+        # (3) the property
+        if v:
+            fails[(fam, c["group"], v)].append(k)
+        else:
+            nontrivial.add((c["rule"], c["form"], tuple(c["inner"]), tuple(c["outer"])))
+        for d in elsewhere:
+            key = c["form"] if c["group"] in ("property-key", "module-alias") else c["form"].split(":")[0]
+            nonref[(c["family"].split(".")[0], key)].append(k)
+            break
+    return {"fails": fails, "nonref": nonref, "templates_in": templates_in, "swc_mism": swc_mism, "mech_mism": mech_mism,
+            "parse_bad": parse_bad, "info": info, "dist": dist, "nontrivial": nontrivial}
+
+
+ENCLOSING_GROUPS = sorted({f["group"] for f in FORMS if f["kind"] == "enclosing"})
+
+
+def classes_of(an, cases):
+    """property failures -> {class: [case index]}.  A class names rule family x binding form x direction; when only SOME of the
+    family's rules/templates fail for a binding form the class names the rule instead (so that a rule that newly forgets its
+    scope check cannot hide behind a family-wide known class); a handler that ignores scoping for EVERY binding form is one
+    class `...:every-binding-form:...`."""
+    out = {}
+    by_fam = {}
+    for (fam, group, v), ks in an["fails"].items():
+        by_fam.setdefault((fam, v), {})[group] = ks
+    for (fam, v), groups in by_fam.items():
+        full = {}
+        for group, ks in groups.items():
+            failing = {(cases[k]["rule"], cases[k]["tpl"]) for k in ks}
+            if failing == an["templates_in"][(fam, group)]:
+                full[group] = ks
+            else:
+                for k in ks:
+                    out.setdefault("C14.%s:%s:%s" % (cases[k]["rule"], group, v), []).append(k)
+        if v == "shadowed-but-reported" and set(full) == set(ENCLOSING_GROUPS):
+            out["C14.%s:every-binding-form:%s" % (fam, v)] = [k for ks in full.values() for k in ks]
+        else:
+            for group, ks in full.items():
+                out["C14.%s:%s:%s" % (fam, group, v)] = ks
+    for (fam, form), ks in an["nonref"].items():
+        out["C14.%s:%s:non-reference-reported" % (fam, form)] = ks
+    return out
+
+
+# ----------------------------------------------------------------------------------------------
+# Proposed known findings of the CURRENT tree (also written to work/c14-proposed-known.json); the main engineer decides.
+# ----------------------------------------------------------------------------------------------
+_DENO_AST = ("deno_ast 0.46 `Scope::analyze` (dependency, src/scopes.rs) does not record this binding form, so `scope().var(id)` / `is_global(id)` "
+             "answers 'global' for a reference that swc's resolver bound to it")
+_SV_RULES = "no-window, no-window-prefix, no-console, no-new-symbol, no-obj-calls, no-deprecated-deno-api, no-regex-spaces, no-control-regex, no-sync-fn-in-async-fn"
+_UNREC = {
+    "setter-parameter": ("the parameter of an object-literal setter (`SetterProp.param` is a `Pat`, not a `Param`)", "({ set s(window) { window.p; } });"),
+    "ts-enum": ("a TypeScript enum", "enum window { A } window.p;"),
+    "ts-namespace": ("a TypeScript namespace", "namespace window { export const a = 1; } window.p;"),
+    "ts-import-equals": ("`import x = require()` / `import x = N.a`", "import window = require('m'); window.p;"),
+    "ts-parameter-property": ("a TypeScript parameter property", "class K { constructor(private window: number) { window.p; } }"),
+    "using": ("a `using` / `await using` declaration", "{ using window = f(); window.p; }"),
+    "variable-initialised-with-same-named-class-expression":
+        ("a variable initialised with a class expression of the same name (visit_var_decl declares the class expression's own identifier INSTEAD of the variable)",
+         "let window = class window {}; window.p;"),
+}
+PROPOSED_KNOWN = {}
+for _g, (_what, _ex) in _UNREC.items():
+    PROPOSED_KNOWN["C14.scope-var-rules:%s:shadowed-but-reported" % _g] = (
+        "%s report a reference that is bound by %s, e.g. `%s` (no-window): %s" % (_SV_RULES, _what, _ex, _DENO_AST))
+    PROPOSED_KNOWN["C14.prefer-primordials.ident-global:%s:shadowed-but-reported" % _g] = (
+        "prefer-primordials (ident handler, GLOBAL_TARGETS && !is_shadowed) reports a global-intrinsic name bound by %s, e.g. `%s` with parseInt for window: %s"
+        % (_what, _ex, _DENO_AST))
+PROPOSED_KNOWN.update({
+    "C14.prefer-primordials.member-global:every-binding-form:shadowed-but-reported":
+        "prefer-primordials member_expr handler compares the object identifier with GLOBAL_TARGETS without consulting the scope: "
+        "`const Array = x; Array.from(o);` and `function f(Symbol) { return Symbol.iterator; }` are reported for every binding form "
+        "(src/rules/prefer_primordials.rs:510-523).  Not repairable as a fix: the repo's own test prefer_primordials_invalid pins "
+        "`const { JSON } = primordials; JSON.parse(\"{}\")` as a report (adding the scope test makes that test fail; tried in a scratch copy)",
+    "C14.prefer-primordials.unsafe-constructor:every-binding-form:shadowed-but-reported":
+        "prefer-primordials ident handler reports `new Map()` / `new Set(o)` (UNSAFE_CONSTRUCTOR_TARGETS) although the identifier is bound locally, "
+        "for every binding form: `function f(Map) { return new Map(); }` (src/rules/prefer_primordials.rs:411-420).  Pinned by the repo's test "
+        "`const { Map } = primordials; new Map();` (expected UnsafeIntrinsic)",
+    "C14.unresolved-ctxt-rules:export-alias:non-reference-reported":
+        "no-process-global / no-node-globals report the ALIAS of `export { z as process }` (an exported name, not a reference; swc leaves it in the "
+        "unresolved context and the `ident` handler sees every Ident node): `const z = 1; export { z as process };`",
+    "C14.prefer-primordials:export-alias:non-reference-reported":
+        "prefer-primordials reports the alias of `export { z as Array }` (an exported name, not a reference)",
+    "C14.prefer-primordials:import-external-name:non-reference-reported":
+        "prefer-primordials reports the external name of `import { Array as z } from 'm'` (not a reference, binds nothing)",
+    "C14.prefer-primordials:label:non-reference-reported":
+        "prefer-primordials reports a LABEL spelled like a global intrinsic: `Array: for (;;) { break Array; }` (labels are Ident nodes)",
+    "C14.prefer-primordials:property-key:ts-interface-member:non-reference-reported":
+        "prefer-primordials reports the member name of `interface I { Array: number }` (TsPropertySignature keys are Ident expressions)",
+    "C14.prefer-primordials:property-key:ts-enum-member:non-reference-reported":
+        "prefer-primordials reports the member name of `enum E { Map }`",
+    "C14.prefer-primordials:setter-parameter:non-reference-reported":
+        "prefer-primordials reports the BINDING occurrence of an object-literal setter parameter `({ set s(Map) {} })` (its ident handler asks deno_ast's Scope, which does not record it)",
+    "C14.prefer-primordials:ts-enum:non-reference-reported":
+        "prefer-primordials reports the declared name of `enum Map { A }` (binding occurrence; deno_ast's Scope does not record enums)",
+    "C14.prefer-primordials:ts-namespace:non-reference-reported":
+        "prefer-primordials reports the declared name of `namespace Array { }` (binding occurrence; not recorded by deno_ast's Scope)",
+    "C14.prefer-primordials:ts-import-equals:non-reference-reported":
+        "prefer-primordials reports the declared name of `import Array = require('m')` (binding occurrence; not recorded by deno_ast's Scope)",
+    "C14.prefer-primordials:ts-parameter-property:non-reference-reported":
+        "prefer-primordials reports the binding occurrence of a parameter property `constructor(private Array: number)` (not recorded by deno_ast's Scope)",
+})
+
+
+def dump_proposed():
+    path = os.path.join(lib.WORK, "c14-proposed-known.json")
+    with open(path, "w") as f:
+        json.dump(PROPOSED_KNOWN, f, indent=1, sort_keys=True)
+    return path
+
+
+@register("C14")
+def c14(ctx):
+    import gen_readers
+    ctx.assumptions += [
+        "swc's resolver and deno_ast's Scope::analyze are MODELLED (coq/Scope/MiniScope.v): the model's verdict for the reference of every generated program "
+        "is compared with the syntax context swc assigned and with deno_ast's Scope::var on every run (harness `idents`)",
+        "MiniScope restrictions: function declarations in blocks are block scoped (no Annex B hoisting), type-only declarations do not bind value references, "
+        "no `with`/direct eval, parameter default expressions share the function scope",
+        "the rules' handlers are not modelled individually: what is proved is the scoping discipline of the two query schemes; that every comparison of an "
+        "identifier with a global name sits in a guard region that consults the scope analysis is a token-level scan (coq/Gen/Readers.v), coarse by construction",
+    ]
+    info = gen_readers.generate()
+    ctx.obligation("translator: coq/Gen/Readers.v regenerated from src/rules/*.rs + src/swc_util.rs (%d comparison sites in %d rules, %d unscoped, %d unclassified)"
+                   % (len(info["c14_sites"]), len(info["c14_rules"]), sum(1 for s in info["c14_sites"] if not s[4]), len(info["c14_unknown"])),
+                   len(info["c14_sites"]) > 0, "")
+    ctx.proof_stage("C14", ["Scope/MiniScope.vo", "Scope/ReaderFacts.vo"])
+    cases = generate(ctx.seed, ctx.tier)
+    t0 = time.time()
+    impl, ids = run_cases(cases)
+    log("[C14] %d cases linted in %.1fs" % (len(cases), time.time() - t0))
+    t0 = time.time()
+    model = run_model([(c["term"], c["name"]) for c in cases])
+    log("[C14] MiniScope resolver (vm_compute in coqc) %.1fs" % (time.time() - t0))
+    an = analyse(cases, impl, ids, model)
+    if an["parse_bad"]:
+        ctx.obligation("generator: every generated program parses", False, json.dumps(an["parse_bad"][:3])[:1500])
+    cls = classes_of(an, cases)
+    for name, ks in sorted(cls.items()):
+        c = cases[ks[0]]
+        short = min((cases[k] for k in ks), key=lambda x: len(x["src"]))
+        ctx.violation(name, "%d programs, e.g. [%s, %s] %s" % (len(ks), short["rule"], short["media"], short["src"]),
+                      {"rule": short["rule"], "media": short["media"], "src": short["src"], "reference_offset": short["ref_off"],
+                       "binding_form": short["form"], "wrappers_between_binding_and_reference": short["inner"], "expected": "silence" if short["kind"] == "enclosing" else "report exactly at the reference",
+                       "diagnostics": impl[cases.index(short)], "programs_in_class": len(ks)})
+    ctx.correspondence("MiniScope resolver (Coq, vm_compute) vs swc resolver + deno_ast Scope::var on the reference of each program",
+                       len(cases), len({(c["form"], tuple(c["inner"]), tuple(c["outer"])) for c in cases}), an["swc_mism"][:10],
+                       "probe in {unresolved, bound&recorded, bound&unrecorded}; distinct := (binding form, wrappers)",
+                       samples=[{"src": cases[7]["src"], "model": model[7]}], distribution=dict(an["dist"]))
+    ctx.correspondence("rules vs their modelled query scheme (scope-var: report iff unresolved or bound only by unrecorded forms; ctxt: iff unresolved; unscoped handlers: always)",
+                       len(cases), len(an["nontrivial"]), an["mech_mism"][:10],
+                       "%d references x %d binding forms x wrapper chains of depth 0-4 (all depth-0/1, sampled 2-4) x optional outer wrappers; non-trivial := the property held on the case"
+                       % (len(REFS), len(FORMS)), distribution={"type-only (informational)": dict(an["info"])})
+    ctx.extra["c14_classes"] = {k: len(v) for k, v in cls.items()}
+    ctx.extra["c14_type_only_informational"] = dict(an["info"])
+    return an, cls
+
+
 if __name__ == "__main__":
+    if sys.argv[1:2] == ["dump"]:
+        print(dump_proposed())
+        sys.exit(0)
     tier = sys.argv[2] if len(sys.argv) > 2 else "quick"
     cases = generate(int(sys.argv[1]) if len(sys.argv) > 1 else 1, tier)
     print(len(cases), "cases")
     t = time.time()
     impl, ids = run_cases(cases)
     print("impl %.1fs" % (time.time() - t))
-    import collections
-    tab = collections.Counter()
-    ex = {}
-    bad_parse = collections.Counter()
-    swc = collections.Counter()
-    for c, r, i in zip(cases, impl, ids):
-        if "ok" not in r:
-            bad_parse[(c["form"], tuple(c["inner"][:1]), json.dumps(r)[:80])] += 1
-            continue
-        diags = [d for d in r["ok"] if d["code"] == c["rule"]]
-        cl = classify(c, diags)
-        pm = py_probe(c["term"], c["name"])
-        # swc's verdict for the reference
-        me = [x for x in i.get("idents", []) if x[0] == c["ref_off"]]
-        if me:
-            sw = 1 if me[0][3] == i["unresolved"] else (2 if me[0][5] else 3)
-            if sw != pm:
-                swc[(c["form"], "model=%d swc=%d" % (pm, sw))] += 1
-                ex.setdefault(("swc", c["form"]), c["src"])
-        if cl:
-            key = (family_of(c), c["group"], cl)
-            tab[key] += 1
-            ex.setdefault(key, (c["rule"], c["media"], c["src"]))
-        if c["kind"] == "info":
-            tab[("INFO", c["form"], c["family"], "reported" if any(d["start"] <= c["ref_off"] < d["end"] for d in diags) else "silent")] += 1
-    rules_of = collections.defaultdict(set)
-    for c, r in zip(cases, impl):
-        if "ok" in r and classify(c, [d for d in r["ok"] if d["code"] == c["rule"]]):
-            rules_of[(family_of(c), c["group"])].add(c["rule"] + " " + c["tpl"])
-    for k, v in sorted(tab.items()):
-        print(v, k, ex.get(k, ""), len(rules_of.get(k[:2], ())))
-    print("parse problems:", len(bad_parse))
-    for k, v in sorted(bad_parse.items())[:40]:
-        print("  ", v, k)
-    print("model vs swc mismatches:")
-    for k, v in sorted(swc.items()):
-        print("  ", v, k, ex.get(("swc", k[0])))
+    model = [py_probe(c["term"], c["name"]) for c in cases]
+    an = analyse(cases, impl, ids, model)
+    cls = classes_of(an, cases)
+    for name, ks in sorted(cls.items()):
+        short = min((cases[k] for k in ks), key=lambda x: len(x["src"]))
+        print("%-6d %s %s   [%s %s] %s" % (len(ks), "KNOWN " if name in PROPOSED_KNOWN else "NEW   ", name, short["rule"], short["media"], short["src"]))
+    print("not seen:", [k for k in PROPOSED_KNOWN if k not in cls])
+    print("parse problems:", len(an["parse_bad"]), an["parse_bad"][:3])
+    print("model vs swc mismatches:", len(an["swc_mism"]), an["swc_mism"][:5])
+    print("mechanism mismatches:", len(an["mech_mism"]), an["mech_mism"][:5])
+    for k, v in sorted(an["info"].items()):
+        print("INFO", v, k)
